@@ -33,7 +33,14 @@ func runC19(r *simkit.Run) {
 	nClients := tp.Range(1, 3)
 	opsPer := tp.Range(4, 12)
 	strict := simkit.Params["partition"] == "fault-free"
-	ns := shardedNamespace("ns1", nSlices, tp.Range(0, 1))
+	// a quarter of the runs have no shard rules: CALL is forwarded there and answered with a chain of result sets
+	// that the proxy streams from the backend connection while the session still holds it
+	noRules := tp.Chance(1, 4)
+	mk := shardedNamespace
+	if noRules {
+		mk = baseNamespace
+	}
+	ns := mk("ns1", nSlices, tp.Range(0, 1))
 	ns.SetForKeepSession = keep
 	ns.MaxSqlExecuteTime = 1000
 	for _, sl := range ns.Slices {
@@ -63,7 +70,7 @@ func runC19(r *simkit.Run) {
 		}
 	}
 	// fault plan: each enabled kind fires on a matching statement with probability 1/den
-	kinds := []string{"slow-begin", "exec-error", "begin-error", "commit-error", "rollback-error", "autocommit-error", "set-error", "use-error", "drop-conn", "slow", "reply-lost", "connect-refused"}
+	kinds := []string{"cut-in-result-chain", "slow-begin", "exec-error", "begin-error", "commit-error", "rollback-error", "autocommit-error", "set-error", "use-error", "drop-conn", "slow", "reply-lost", "connect-refused"}
 	enabled := map[string]bool{}
 	if !strict {
 		n := tp.Range(1, 3)
@@ -74,6 +81,25 @@ func runC19(r *simkit.Run) {
 	den := []int{3, 5, 8}[tp.Choose(3)]
 	faultsOn := true
 	lastFault := time.Duration(0)
+	w.Cl.Exec = func(c *mysim.Conn, st *mysim.Stmt) *mysim.Reply {
+		if !strings.HasPrefix(strings.ToLower(strings.TrimSpace(st.SQL)), "call ") {
+			return nil
+		}
+		col := []myproto.Column{{Name: "v", Type: myproto.TLongLong, Length: 20}}
+		second := &mysim.Reply{Columns: col, Rows: [][][]byte{{[]byte("3")}, {[]byte("4")}, {[]byte("5")}}, Next: &mysim.Reply{}}
+		rep := &mysim.Reply{Columns: col, Rows: [][][]byte{{[]byte("1")}, {[]byte("2")}}, Next: second}
+		if faultsOn && enabled["cut-in-result-chain"] && tp.Chance(1, den) {
+			// the backend connection dies inside the first or the second result set
+			tgt := []*mysim.Reply{rep, second}[tp.Choose(2)]
+			tgt.CutAfter, tgt.CutReset = 1, tp.Chance(1, 2)
+			r.Fault("cut-in-result-chain")
+			lastFault = r.Now()
+		} else if faultsOn && enabled["slow"] && tp.Chance(1, den) {
+			rep.StallNext = 3 * time.Second
+			r.Fault("slow")
+		}
+		return rep
+	}
 	w.Cl.Fault = func(c *mysim.Conn, st *mysim.Stmt) *mysim.FaultAction {
 		if !faultsOn || isNoise(st) {
 			return nil
@@ -146,7 +172,7 @@ func runC19(r *simkit.Run) {
 		}
 		return false
 	}
-	cfg := fmt.Sprintf("slices=%d keepSession=%v clients=%d ops=%d faults=%v 1/%d sessionTimeout5s=%v", nSlices, keep, nClients, opsPer, keysB(enabled), den, shortTimeout)
+	cfg := fmt.Sprintf("slices=%d keepSession=%v clients=%d ops=%d faults=%v 1/%d sessionTimeout5s=%v shardRules=%v", nSlices, keep, nClients, opsPer, keysB(enabled), den, shortTimeout, !noRules)
 	r.Logf("config %s", cfg)
 	finished := 0
 	for i := 0; i < nClients; i++ {
@@ -154,6 +180,13 @@ func runC19(r *simkit.Run) {
 		cm := &ClientModel{Idx: i, User: user, DB: "db1", AC: true, Charset: "utf8mb4", Vars: map[string]string{}, UVars: map[string]string{}}
 		for j := 0; j < opsPer; j++ {
 			op := genTxnOp(tp, i, j, nSlices)
+			if noRules && tp.Chance(1, 5) {
+				m := markerOf(i, j)
+				op = Op{Kind: "query", SQL: fmt.Sprintf("call p_multi(%d)", m), Marker: m, Class: "write", Table: "t_plain"}
+			}
+			if noRules && op.Kind == "use" {
+				op.Arg = "db1" // (in db2 the proxy parses every statement and refuses CALL)
+			}
 			switch tp.Choose(14) {
 			case 0:
 				op = Op{Kind: "query", SQL: "set @u" + fmt.Sprint(i) + " = " + fmt.Sprint(j), Class: "uservar", Arg: fmt.Sprintf("@u%d=%d", i, j)}
